@@ -17,7 +17,7 @@ META = {
     "outside": ["quadrilaterals with offsets > 0.2 from the unit square", "sequences longer than 2 operations"],
     "assumptions": ["reorient: the target is closer to one corner than to the others by a margin of 1e-3 (squared)"],
     "must_reach": ["shift", "invert", "reorient", "set_patch", "project_side", "project_edge", "project_corner",
-                   "get_face"],
+                   "get_face", "project_edge_seq"],
 }
 
 SQ = [(0, 0, 0), (1, 0, 0), (1, 1, 0), (0, 1, 0)]
@@ -260,6 +260,58 @@ def run_project_edge(sx):
     return f"project_edge:{c1}-{c2}"
 
 
+def run_project_edge_seq(sx, sides=False):
+    """two addressing calls on one operation: each geometric edge must end up with exactly the labels aimed at it"""
+    box, lo, hi = _box(sx)
+    want = {}
+
+    def aim(c1, c2, label):
+        want.setdefault(frozenset((c1, c2)), set()).add(label)
+
+    if sides:
+        s1 = sx.choice("side1", 6)
+        s2 = sx.choice("side2", 6)
+        for side, label in ((SIDES[s1], "ga"), (SIDES[s2], "gb")):
+            box.project_side(side, label, edges=True)
+            ax, end = SIDE_AXIS[side]
+            for (c1, c2) in PAIRS:
+                p1, p2 = _CORNER_BITS[c1], _CORNER_BITS[c2]
+                if p1[ax] == end and p2[ax] == end:
+                    aim(c1, c2, label)
+        tag = f"{SIDES[s1]}+{SIDES[s2]}"
+    else:
+        k1 = sx.choice("pair1", 12)
+        k2 = sx.choice("pair2", 12)
+        sw = sx.flag("swap2")
+        box.project_edge(*PAIRS[k1], "ga")
+        c1, c2 = PAIRS[k2]
+        if sw:
+            c1, c2 = c2, c1
+        box.project_edge(c1, c2, "gb")
+        aim(*PAIRS[k1], "ga")
+        aim(c1, c2, "gb")
+        tag = f"{PAIRS[k1]}+{(c1, c2)}"
+    mesh = cb.Mesh()
+    mesh.add(box)
+    mesh.assemble()
+    sx.reach("project_edge_seq")
+    got = {}
+    blk = mesh.blocks[0]
+    for e in mesh.edge_list.edges:
+        if e.kind != "project":
+            continue
+        cs = frozenset(i for i, v in enumerate(blk.vertices) if v is e.vertex_1 or v is e.vertex_2)
+        got.setdefault(cs, set()).update(e.data.label)
+    sx.prove(got == want, "after two projection calls every block edge carries exactly the labels aimed at it",
+             "C10:project-sequence:" + ("sides" if sides else "edges"),
+             info={"calls": tag, "want": {str(sorted(k)): sorted(v) for k, v in want.items()},
+                   "got": {str(sorted(k)): sorted(v) for k, v in got.items()}})
+    return "project_edge_seq"
+
+
+_CORNER_BITS = [(0, 0, 0), (1, 0, 0), (1, 1, 0), (0, 1, 0), (0, 0, 1), (1, 0, 1), (1, 1, 1), (0, 1, 1)]
+
+
 def run_project_corner(sx):
     box, lo, hi = _box(sx)
     c = sx.choice("corner", 8)
@@ -310,6 +362,8 @@ def jobs(tier, seed):
         {"name": "project_side+points", "fn": "run_project_side", "params": {"points": True}},
         {"name": "project_edge", "fn": "run_project_edge"},
         {"name": "project_corner", "fn": "run_project_corner"},
+        {"name": "project_edge x2", "fn": "run_project_edge_seq"},
+        {"name": "project_side(edges) x2", "fn": "run_project_edge_seq", "params": {"sides": True}},
         {"name": "side_edge", "fn": "run_side_edge"},
     ]
     js.append({"name": "invert", "fn": "run_invert",
